@@ -2,7 +2,7 @@ SPECIFICATION Spec
 CONSTANTS
   N = 3
   Refs = {"a", "b"}
-  MaxDepth = 6
+  MaxDepth = 4
   MaxPacks = 2
   WithCopies = TRUE
   WithIdx = FALSE
